@@ -41,8 +41,9 @@ func run(e *harness.Env) {
 	e.Rule = fmt.Sprintf("full product per sub-space (no sampling). Texts = every sequence of 0..n segments over {ASCII word, 120-byte token, CJK run, spaced CJK words, emoji, base+2 combining marks, "+
 		"sentences of 60/150/200/250 bytes ending in '. ', two multi-byte-script sentences (Greek/Cyrillic/accented Latin/CJK) ending in '. ', '? ', newline, blank line, NBSP, NEL, dotted abbreviation, decimal number} with one repetition factor r in {1,8,40} for the repeatable segments. "+
 		"split (n<=%d%s): texts x unit{characters,tokens,words,sentences,paragraphs} x limit{1,2,5,50,200,800} (sentences/paragraphs only 1,2,5 and words up to 200: larger ones cannot engage on texts of this size) x TokensPerChar{0.25,1,0 (token unit only)}; "+
-		"point (n<=%d): FindSplitPointAt and FindSplitPoint on the same grid; bnd: sequences of <=%d paragraph blocks out of 10 with BoundaryDetector boundaries x SplitAtSemanticBoundaries x the grid; "+
+		"point (n<=%d): FindSplitPointAt and FindSplitPoint on the same grid; bnd: sequences of <=%d paragraph blocks out of 14 (incl. multi-byte sentences and blocks with stray leading/trailing blanks) with BoundaryDetector boundaries x SplitAtSemanticBoundaries x the grid; "+
 		"ovl (n<=%d; quick additionally every 3-segment sequence over {2 multi-byte sentences, ASCII sentence, spaced CJK, emoji, word}): texts x strategy{none,character,sentence,paragraph} x size{1,2,10,100} x PreserveWords x MaxOverlap{0,50,300,500} x MinOverlap{0,20}; "+
+		"ovlcut: {1-,2-,3-,4-byte character runs, mixed} x {unspaced, spaced, sentences} x 0..3 leading ASCII bytes (every alignment of the cut byte inside a character) x strategy{character,sentence,paragraph} x PreserveWords x MaxOverlap{50,51,100,500} x Size{Max-3..Max+2,Max+50,10 | 1,2 sentences/paragraphs}, through GenerateOverlap and ApplyOverlapToChunks; "+
 		"apply: sequences of 2..%d position-marked chunk texts out of 10 kinds (two of them multi-byte-script sentences) x the overlap grid x IncludeHeadingContext; "+
 		"chunker (n<=%d): one-page documents {paragraph, intro+paragraph, H1+paragraph} x MaxChunkSize{1,2,5,50,200,800} x OverlapSize{0,1,2,10,100} x OverlapSentences, Chunk and ChunkWithOverlapEnabled; "+
 		"docchunk (n<=%d): ChunkDocumentWithConfig on {paragraph, intro+paragraph} x the size grid. "+
@@ -51,7 +52,7 @@ func run(e *harness.Env) {
 		L-1, map[bool]int{false: 2, true: 3}[e.Thorough()], L-1, map[bool]int{false: 3, true: 4}[e.Thorough()], L-1, L-1)
 	e.Assumptions = []string{
 		"Go's unicode.IsSpace / utf8.ValidString define white space and UTF-8 validity",
-		"size of a piece is measured in runes for 'characters' and int(runes*ratio) for tokens (weakest reading; tabula itself counts bytes, which is never smaller)",
+		"sizes are measured as the library defines its units: characters = len(text) in bytes (SizeMetrics.Characters, CharCount), tokens = int(bytes*ratio), MaxOverlap in bytes (len(overlap)); bounds are exact, no slack",
 		"'break opportunity within the maximum' = the quantifier's precondition: limit >= 200 and an ASCII space at least every 50 bytes",
 		"'configured overlap bounds' = MaxOverlap (MinOverlap and Size are targets, not bounds)",
 	}
@@ -73,6 +74,9 @@ func run(e *harness.Env) {
 	}
 	if want("ovl") {
 		overlapSpace(e, L-1)
+	}
+	if want("ovlcut") {
+		overlapCutSpace(e)
 	}
 	if want("apply") {
 		applySpace(e)
@@ -174,9 +178,10 @@ func forSizeGrid(pre string, minLimit int, f func(desc string, u unitV, lim int,
 	}
 }
 
-// pieceSize measures a piece in the unit of the hard maximum (weakest reading: runes).
+// pieceSize measures a piece in the unit of the hard maximum exactly as the library defines that
+// unit (SizeMetrics.Characters = len(text), i.e. bytes; tokens = int(len(text) * ratio)): no slack.
 func pieceSize(p string, u rag.SizeUnit, tpc float64) int {
-	n := utf8.RuneCountInString(p)
+	n := len(p)
 	if u == rag.SizeUnitTokens {
 		if tpc <= 0 {
 			tpc = 0.25 // documented default, as EstimateTokens does
@@ -184,6 +189,18 @@ func pieceSize(p string, u rag.SizeUnit, tpc float64) int {
 		return int(float64(n) * tpc)
 	}
 	return n
+}
+
+// trimFits is a derived descriptor feature: the text exceeds the character/token maximum only by its
+// leading/trailing white space (it fits once trimmed, as every other piece is).
+func trimFits(s string, u rag.SizeUnit, limit int, tpc float64) int {
+	if u != rag.SizeUnitCharacters && u != rag.SizeUnitTokens {
+		return 0
+	}
+	if pieceSize(s, u, tpc) > limit && pieceSize(strings.TrimSpace(s), u, tpc) <= limit {
+		return 1
+	}
+	return 0
 }
 
 // boundApplies is the statement's precondition for the size bound.
@@ -210,7 +227,7 @@ func checkPieces(wantStripped string, pieces []string, bound bool, u rag.SizeUni
 		for i, p := range pieces {
 			if sz := pieceSize(p, u, tpc); sz > limit {
 				sigs = append(sigs, "piece-exceeds-max")
-				det = append(det, fmt.Sprintf("piece %d of %d measures %d (%d bytes) > hard maximum %d although the text has a space at least every 50 bytes: %s", i, len(pieces), sz, len(p), limit, show(p)))
+				det = append(det, fmt.Sprintf("piece %d of %d measures %d (%d bytes, %d characters) > hard maximum %d although the text has a space at least every 50 bytes: %s", i, len(pieces), sz, len(p), utf8.RuneCountInString(p), limit, show(p)))
 				break
 			}
 		}
@@ -252,6 +269,7 @@ func splitSpace(e *harness.Env, L int) {
 				minLimit = 50 // the longest repeated texts only with the limits where the search windows matter
 			}
 			forSizeGrid("space=split "+t.part(), minLimit, func(desc string, u unitV, lim int, tp tpcV) {
+				desc = fmt.Sprintf("%s trimfits=%d", desc, trimFits(t.s, u.u, lim, tp.v))
 				if !e.Own(desc) {
 					return
 				}
@@ -335,15 +353,32 @@ func pointSpace(e *harness.Env, L int) {
 
 // ---- (bnd) SplitToSize with boundaries from the BoundaryDetector ---------------------------
 
-func paragraphTexts() []*text {
-	return []*text{
-		mkText(8, "w"), mkText(1, "s60"), mkText(1, "s150"), mkText(1, "s250"), mkText(1, "s60", "s60", "s60"),
-		mkText(40, "cjk"), mkText(8, "cjkw"), mkText(8, "emo"), mkText(1, "tok"), mkText(1, "s200", "q"),
+// paragraph blocks of the boundary space. Most are trimmed (as a layout analysis delivers them); the
+// "sp" kinds keep a stray leading / trailing blank, which SplitToSize trims from the remainder while
+// the boundary positions are only shifted by the split position.
+type paraKind struct {
+	id string
+	s  string
+}
+
+func paragraphKinds() []paraKind {
+	tr := func(t *text) paraKind {
+		return paraKind{fmt.Sprintf("%s*%d", t.id, t.rep), strings.TrimSpace(t.s)}
 	}
+	out := []paraKind{
+		tr(mkText(8, "w")), tr(mkText(1, "s60")), tr(mkText(1, "s150")), tr(mkText(1, "s250")), tr(mkText(1, "s60", "s60", "s60")),
+		tr(mkText(40, "cjk")), tr(mkText(8, "cjkw")), tr(mkText(8, "emo")), tr(mkText(1, "tok")), tr(mkText(1, "s200", "q")),
+		tr(mkText(1, "mbs", "mbs3", "mbs")),
+	}
+	out = append(out,
+		paraKind{"sp+cjk*8", " " + mkText(8, "cjk").s},
+		paraKind{"sp+mbs+mbs3+sp", "  " + mkText(1, "mbs", "mbs3").s},
+		paraKind{"s60+s60+sp", mkText(1, "s60", "s60").s + " "})
+	return out
 }
 
 func boundarySpace(e *harness.Env) {
-	paras := paragraphTexts()
+	paras := paragraphKinds()
 	maxBlocks := 2
 	if e.Thorough() {
 		maxBlocks = 3
@@ -356,14 +391,15 @@ func boundarySpace(e *harness.Env) {
 		blocks := make([]rag.ContentBlock, len(seq))
 		parts := make([]string, len(seq))
 		for i, k := range seq {
-			ids[i] = fmt.Sprintf("%s*%d", paras[k].id, paras[k].rep)
-			parts[i] = strings.TrimSpace(paras[k].s) // paragraph texts as a layout analysis would deliver them
+			ids[i] = paras[k].id
+			parts[i] = paras[k].s
 			blocks[i] = rag.ContentBlock{Type: 0, Text: parts[i], Index: i}
 		}
 		joined := strings.Join(parts, "\n\n")
 		t := &text{id: strings.Join(ids, "|"), rep: 1, nseg: len(seq), s: joined}
 		for _, sem := range []int{1, 0} {
 			forSizeGrid(fmt.Sprintf("space=bnd %s sem=%d", t.part(), sem), 1, func(desc string, u unitV, lim int, tp tpcV) {
+				desc = fmt.Sprintf("%s trimfits=%d", desc, trimFits(joined, u.u, lim, tp.v))
 				if !e.Own(desc) {
 					return
 				}
@@ -472,9 +508,10 @@ func checkOverlap(ov string, ownStripped string, maxOverlap int) (string, string
 		sigs = append(sigs, class)
 		det = append(det, fmt.Sprintf("overlap text (modulo white space) is not a suffix of the previous chunk's own content\n overlap: %s\n previous own content: %s", show(ov), show(ownStripped)))
 	}
-	if n := utf8.RuneCountInString(ov); n > maxOverlap {
+	// MaxOverlap is measured the way the library measures it (len(overlap), OverlapResult.CharCount): bytes, no slack
+	if n := len(ov); n > maxOverlap {
 		sigs = append(sigs, "overlap-exceeds-max")
-		det = append(det, fmt.Sprintf("overlap text has %d characters (%d bytes) > MaxOverlap %d: %s", n, len(ov), maxOverlap, show(ov)))
+		det = append(det, fmt.Sprintf("overlap text has %d bytes (%d characters) > MaxOverlap %d: %s", n, utf8.RuneCountInString(ov), maxOverlap, show(ov)))
 	}
 	return first(sigs), strings.Join(det, "\n")
 }
@@ -548,9 +585,13 @@ var chunkKinds = []struct {
 		return fmt.Sprintf("One%d is short. Two%d is short. Three%d is a little bit longer than the others.", i, i, i)
 	}},
 	{"words", func(i int) string { return strings.TrimSpace(strings.Repeat(fmt.Sprintf("word%d ", i), 12)) }},
-	{"cjk", func(i int) string { return strings.Repeat("日本語", 3) + fmt.Sprint(i) + strings.Repeat("学校の文字列", 5) }},
+	{"cjk", func(i int) string {
+		return strings.Repeat("日本語", 3) + fmt.Sprint(i) + strings.Repeat("学校の文字列", 5)
+	}},
 	{"paras", func(i int) string { return fmt.Sprintf("Para%d one is here.\n\nPara%d two is there.", i, i) }},
-	{"emoji", func(i int) string { return fmt.Sprintf("\U0001F600%d e\u0323\u0301 \U0001F600\U0001F600 %d\U0001F600", i, i) }},
+	{"emoji", func(i int) string {
+		return fmt.Sprintf("\U0001F600%d e\u0323\u0301 \U0001F600\U0001F600 %d\U0001F600", i, i)
+	}},
 	{"tiny", func(i int) string { return fmt.Sprintf("x%d", i) }},
 	// multi-byte scripts mixed with ASCII sentence punctuation (2 and 3 sentences, each starting with a capital)
 	{"mbsent2", func(i int) string {
@@ -674,4 +715,128 @@ func checkApplied(own []string, res []*rag.ChunkWithOverlap, maxOverlap int, ctx
 		}
 	}
 	return first(sigs), strings.Join(dets, "\n"), overlapped
+}
+
+// ---- (ovlcut) every alignment of the overlap cut inside a multi-byte character ---------------
+//
+// The tail of a chunk is cut at byte len(text)-Size (character strategy) or len(overlap)-MaxOverlap
+// (truncation of a sentence / paragraph overlap whose last sentence alone exceeds MaxOverlap).
+// Texts are runs of 1-, 2-, 3- and 4-byte characters (and a mix), unspaced / spaced / as sentences,
+// shifted by 0..3 leading ASCII bytes so that the cut byte falls at every offset 0..3 of a character;
+// (Size, MaxOverlap) pairs include Size = MaxOverlap-3 .. MaxOverlap+2 and Size > MaxOverlap.
+
+func overlapCutSpace(e *harness.Env) {
+	type body struct {
+		name string
+		unit []string // characters cycled through
+	}
+	bodies := []body{
+		{"b1", []string{"a", "b", "c", "d", "e"}},
+		{"b2", []string{"α", "β", "γ", "δ", "é"}},
+		{"b3", []string{"日", "本", "語", "学", "校"}},
+		{"b4", []string{"😀", "🎉", "🚀"}},
+		{"mix", []string{"a", "β", "日", "😀", "é", "語", "b"}},
+	}
+	build := func(b body, form string, n int) string {
+		var sb strings.Builder
+		for i := 0; i < n; i++ {
+			switch form {
+			case "spaced":
+				if i > 0 && i%5 == 0 {
+					sb.WriteByte(' ')
+				}
+			case "sentences":
+				if i%40 == 0 {
+					if i > 0 {
+						sb.WriteString(". ")
+					}
+					sb.WriteString("S") // capital: the sentence detector needs one after ". "
+				} else if i%5 == 0 {
+					sb.WriteByte(' ')
+				}
+			}
+			sb.WriteString(b.unit[i%len(b.unit)])
+		}
+		if form == "sentences" {
+			sb.WriteByte('.')
+		}
+		return sb.String()
+	}
+	type cfgCase struct {
+		part string
+		cfg  rag.OverlapConfig
+	}
+	var cfgs []cfgCase
+	for _, st := range strategies[1:] {
+		for _, pw := range []int{0, 1} {
+			for _, mx := range []int{50, 51, 100, 500} {
+				sizes := []int{1, 2}
+				if st.s == rag.OverlapCharacter {
+					sizes = []int{10, mx - 3, mx - 2, mx - 1, mx, mx + 1, mx + 2, mx + 50}
+				}
+				for _, size := range sizes {
+					cfgs = append(cfgs, cfgCase{
+						part: harness.D("strategy", st.name, "size", size, "words", pw, "maxov", mx),
+						cfg:  rag.OverlapConfig{Strategy: st.s, Size: size, MinOverlap: 20, MaxOverlap: mx, PreserveWords: pw == 1},
+					})
+				}
+			}
+		}
+	}
+	for _, b := range bodies {
+		for _, form := range []string{"unspaced", "spaced", "sentences"} {
+			for shift := 0; shift <= 3; shift++ {
+				s := "zzz"[:shift] + build(b, form, 260)
+				if !utf8.ValidString(s) {
+					panic("generator emitted invalid UTF-8")
+				}
+				own := stripWS(s)
+				for _, c := range cfgs {
+					for _, api := range []string{"gen", "apply"} {
+						desc := fmt.Sprintf("space=ovlcut body=%s form=%s shift=%d len=%d %s api=%s", b.name, form, shift, len(s), c.part, api)
+						if !e.Own(desc) {
+							continue
+						}
+						var ov string
+						e.Begin(desc)
+						sig, det := harness.Guard(func() {
+							if api == "gen" {
+								ov = rag.NewOverlapGeneratorWithConfig(c.cfg).GenerateOverlap(s).Text
+							} else {
+								chunks := []*rag.Chunk{rag.NewChunk("c0", s, rag.ChunkMetadata{}), rag.NewChunk("c1", "Next chunk.", rag.ChunkMetadata{ChunkIndex: 1})}
+								res := rag.ApplyOverlapToChunks(chunks, c.cfg)
+								ov = res[1].OverlapPrefix
+								if want := stripWS(ov) + "Nextchunk."; stripWS(res[1].Text) != want {
+									panic("C13-ORACLE text-not-conserved")
+								}
+							}
+						})
+						files := map[string][]byte{"input.txt": []byte(s)}
+						if strings.HasPrefix(det, "C13-ORACLE text-not-conserved") {
+							fail(e, desc, "text-not-conserved", "second chunk's text is not overlap + own content", files)
+							continue
+						}
+						if sig != "" {
+							fail(e, desc, sig, det, files)
+							continue
+						}
+						if sig, det := checkOverlap(ov, own, c.cfg.MaxOverlap); sig != "" {
+							fail(e, desc, sig, det, files)
+							continue
+						}
+						switch {
+						case ov == "":
+							e.Pass(desc, false, "ovlcut:empty")
+						case len(ov) == c.cfg.MaxOverlap:
+							e.Pass(desc, true, "ovlcut:exactly-max")
+						case len(ov) > c.cfg.MaxOverlap-4:
+							e.Pass(desc, true, "ovlcut:max-minus-1..3")
+						default:
+							e.Pass(desc, true, "ovlcut:shorter")
+						}
+					}
+				}
+			}
+		}
+	}
 }
